@@ -8,8 +8,12 @@
   * `wrapIter_eq_runtime`: the map and channel iterators deliver every step of the Go runtime's own
     iteration exactly once, in order (partial: map iteration order / deletion semantics and channel
     receive are the runtime's and enter as a parameter; nil interface keys and values: K3).
-  Slices (length snapshot, live element reads, append reallocation) are covered by correspondence K3
-  against the native range statement under mutation scripts, not by a theorem (partial).
+  * `sliceIter_eq_range`: for every length, every memory and every loop body (element writes, appends in
+    place or reallocating, reslicing - any function on memory) the slice iterator under the lowered loop
+    delivers what `for i, v := range sl` delivers: length snapshot at creation, element `i` read live at
+    the start of iteration `i`, exactly `n` iterations; `C10_slice_script_no_panic`: no index panic under
+    any mutation script.  K3 runs the same scripts on seq.NewSliceIter, on the native range statement
+    and on this model (memory = the iterator's backing array + the program's own slice variable).
   The UTF-8 decoder `decodeRune` stands for unicode/utf8.DecodeRuneInString, which the repaired
   stringIter calls; K3 compares it with Go on every string up to length 3/4 over a hostile alphabet.
   Fixed on this tree (see known_findings.json): integer bounds (D1), string keys (D2), nil map entries (D3).
@@ -30,12 +34,39 @@ theorem C10_wrapper {R A B : Type} (next : R → Option (A × R)) (conv : A → 
     drain (wrapIter next conv dflt) fuel (r, a0) = (runtimeSeq next fuel r).map conv :=
   wrapIter_eq_runtime next conv dflt fuel r a0
 
+theorem C10_slice {M V : Type} (read : M → Nat → Option V) (body : Nat → M → M) (n : Nat) (m : M) :
+    drainSlice read body (n+1) (newSliceIter n) m = rangeSlice read body n m :=
+  sliceIter_eq_range read body n m
+
+theorem C10_slice_iterations {M V : Type} (read : M → Nat → Option V) (body : Nat → M → M) (n : Nat) (m : M) :
+    (drainSlice read body (n+1) (newSliceIter n) m).length = n := by
+  rw [sliceIter_eq_range]; exact rangeSliceFrom_length read body n 0 m
+
+theorem C10_slice_script_no_panic (ops : List (Nat × ScriptOp)) (init : List Nat) (cap : Nat) :
+    ∀ x ∈ drainSlice scriptRead (scriptBody ops) (init.length + 1) (newSliceIter init.length) (mkScriptMem init cap),
+      x.isSome := by
+  rw [sliceIter_eq_range]; exact script_no_panic ops init cap
+
+theorem C10_slice_exhaustion (s : SliceSt) (h : (s.len : Int) ≤ s.idx) :
+    (sliceMoveNext s).1 = false ∧ ((sliceMoveNext s).2.len : Int) ≤ (sliceMoveNext s).2.idx :=
+  slice_exhaustion_permanent s h
+
 /-- every decoded rune advances at least one byte: the iteration terminates on every input -/
 theorem C10_progress (bs : List Nat) : 1 ≤ (decodeRune bs).2 := decodeRune_width_pos bs
 
 /-! non-vacuity: "a", U+00E9, a stray continuation byte, a truncated 3-byte sequence, "€" -/
 example : rangeStr [97, 0xC3, 0xA9, 0x80, 0xE2, 0x82, 0xE2, 0x82, 0xAC]
     = [(0, 97), (1, 233), (3, 65533), (4, 65533), (5, 65533), (6, 8364)] := by decide
+/-- [1 2 3], cap 3: `append` at iteration 0 reallocates, so the later `sl[2] = 7` is invisible; with cap 8 the
+    append is in place and the write is seen; a write ahead of the cursor is seen; truncation changes nothing -/
+example : rangeSlice scriptRead (scriptBody [(0, .append 9), (1, .set 2 7)]) 3 (mkScriptMem [1, 2, 3] 3)
+    = [some (0, 1), some (1, 2), some (2, 3)] := by decide
+example : rangeSlice scriptRead (scriptBody [(0, .append 9), (1, .set 2 7)]) 3 (mkScriptMem [1, 2, 3] 8)
+    = [some (0, 1), some (1, 2), some (2, 7)] := by decide
+example : rangeSlice scriptRead (scriptBody [(0, .truncate 1), (1, .append 50)]) 3 (mkScriptMem [1, 2, 3] 3)
+    = [some (0, 1), some (1, 2), some (2, 3)] := by decide
+example : rangeSlice scriptRead (scriptBody [(0, .truncate 1), (0, .append 50)]) 3 (mkScriptMem [1, 2, 3] 3)
+    = [some (0, 1), some (1, 50), some (2, 3)] := by decide
 example : rangeInt 3 = [0, 1, 2] ∧ rangeInt (-2) = [] := by decide
 
 end GoCo.C10
